@@ -39,6 +39,36 @@ struct Ctx {
     counter: usize,
 }
 
+/// Attribution of a case to a known-finding class: the Lean guard names the clause that fails (`c17.guard`), and
+/// the class's own mechanism must be demonstrably present in this very input; otherwise the case is unclassified.
+fn attribute(guard: &str, cfg: &str, input: &[u8], rep: &mut Report) -> &'static str {
+    let utf8_mark = input.starts_with(&[0xEF, 0xBB, 0xBF]);
+    let le_mark = input.starts_with(&[0xFF, 0xFE]);
+    let be_mark = input.starts_with(&[0xFE, 0xFF]);
+    let (class, mechanism) = match guard {
+        // F13 — a UTF-8 mark, no label, and bytes after the mark that are not valid UTF-8
+        "f13" => (CLASS_F13, utf8_mark && cfg == "auto" && std::str::from_utf8(&input[3..]).is_err()),
+        // a UTF-8 mark and an explicit label other than UTF-8
+        "label" => (CLASS_LABEL, utf8_mark && !matches!(cfg, "auto" | "none" | "utf-8")),
+        // really two marks: the mark that selects the decoder (sniffed), directly followed by that decoder's own mark again
+        "second" => (
+            CLASS_SECOND,
+            cfg != "none"
+                && ((utf8_mark && cfg == "utf-8" && input[3..].starts_with(&[0xEF, 0xBB, 0xBF]))
+                    || (le_mark && input[2..].starts_with(&[0xFF, 0xFE]))
+                    || (be_mark && input[2..].starts_with(&[0xFE, 0xFF]))),
+        ),
+        _ => return "",
+    };
+    if mechanism {
+        rep.branch(&format!("class:{}:attributed", class));
+        class
+    } else {
+        rep.branch(&format!("class:{}:mechanism-absent", class));
+        ""
+    }
+}
+
 // ------------------------------------------------------------------ inputs
 
 /// One element of a generated text, as UTF-16 code units (possibly ill-formed on purpose).
@@ -111,6 +141,43 @@ const SJIS: &[(&str, &[u8])] = &[
     ("ス", &[0x83, 0x58]), ("ト", &[0x83, 0x67]), ("ｱ", &[0xb1]), ("needle", b"needle"), (" ", b" "), ("x", b"x"), ("\n", b"\n"),
 ];
 
+/// Other encodings of the Encoding Standard (no Lean machine: differential only): a few characters each with their
+/// bytes, written down independently of encoding_rs (Python's codecs; x-user-defined by its definition 0x80+k -> U+F780+k).
+const OTHER: &[(&str, &[(&str, &[u8])])] = &[
+    ("gb18030", &[("中", &[0xd6, 0xd0]), ("文", &[0xce, 0xc4]), ("汉", &[0xba, 0xba]), ("字", &[0xd7, 0xd6]), ("，", &[0xa3, 0xac]), ("。", &[0xa1, 0xa3]), ("€", &[0xa2, 0xe3]), ("😀", &[0x94, 0x39, 0xfc, 0x36])]),
+    ("gbk", &[("中", &[0xd6, 0xd0]), ("文", &[0xce, 0xc4]), ("汉", &[0xba, 0xba]), ("字", &[0xd7, 0xd6]), ("，", &[0xa3, 0xac]), ("。", &[0xa1, 0xa3])]),
+    ("big5", &[("中", &[0xa4, 0xa4]), ("文", &[0xa4, 0xe5]), ("漢", &[0xba, 0x7e]), ("字", &[0xa6, 0x72]), ("，", &[0xa1, 0x41]), ("。", &[0xa1, 0x43])]),
+    ("euc-jp", &[("日", &[0xc6, 0xfc]), ("本", &[0xcb, 0xdc]), ("語", &[0xb8, 0xec]), ("テ", &[0xa5, 0xc6]), ("ス", &[0xa5, 0xb9]), ("ト", &[0xa5, 0xc8]), ("、", &[0xa1, 0xa2]), ("ｱ", &[0x8e, 0xb1])]),
+    ("euc-kr", &[("한", &[0xc7, 0xd1]), ("국", &[0xb1, 0xb9]), ("어", &[0xbe, 0xee]), ("가", &[0xb0, 0xa1])]),
+    ("koi8-r", &[("п", &[0xd0]), ("р", &[0xd2]), ("и", &[0xc9]), ("в", &[0xd7]), ("е", &[0xc5]), ("т", &[0xd4]), ("Я", &[0xf1])]),
+    ("windows-1251", &[("п", &[0xef]), ("р", &[0xf0]), ("и", &[0xe8]), ("в", &[0xe2]), ("е", &[0xe5]), ("т", &[0xf2]), ("Я", &[0xdf])]),
+    ("iso-8859-2", &[("ł", &[0xb3]), ("ą", &[0xb1]), ("č", &[0xe8]), ("ž", &[0xbe]), ("ő", &[0xf5])]),
+    ("iso-8859-15", &[("é", &[0xe9]), ("€", &[0xa4]), ("œ", &[0xbd]), ("Š", &[0xa6])]),
+    ("windows-1250", &[("ł", &[0xb3]), ("ą", &[0xb9]), ("č", &[0xe8]), ("ž", &[0x9e]), ("€", &[0x80])]),
+    ("macintosh", &[("é", &[0x8e]), ("†", &[0xa0]), ("∞", &[0xb0]), ("π", &[0xb9])]),
+    ("ibm866", &[("п", &[0xaf]), ("р", &[0xe0]), ("и", &[0xa8]), ("в", &[0xa2]), ("е", &[0xa5]), ("т", &[0xe2]), ("░", &[0xb0])]),
+    ("windows-874", &[("ไ", &[0xe4]), ("ท", &[0xb7]), ("ย", &[0xc2]), ("€", &[0x80])]),
+    ("koi8-u", &[("ї", &[0xa7]), ("є", &[0xa4]), ("і", &[0xa6]), ("ґ", &[0xad])]),
+    ("x-user-defined", &[("\u{f780}", &[0x80]), ("\u{f7ff}", &[0xff]), ("\u{f7a0}", &[0xa0])]),
+];
+
+/// Labels of the Encoding Standard that name the same encoding (any letter case): `alias=k` picks one.
+fn aliases(cfg: &str) -> &'static [&'static str] {
+    match cfg {
+        "utf-8" => &["utf-8", "UTF-8", "utf8", "Utf8", "unicode-1-1-utf-8", "x-unicode20utf8"],
+        "utf-16le" => &["utf-16le", "UTF-16LE", "utf-16", "UTF-16", "unicode", "ucs-2", "csunicode", "iso-10646-ucs-2", "unicodefeff"],
+        "utf-16be" => &["utf-16be", "UTF-16BE", "unicodefffe", "Utf-16Be"],
+        "latin1" => &["latin1", "Latin1", "windows-1252", "iso-8859-1", "l1", "ascii", "cp1252", "ISO_8859-1", "us-ascii", "x-cp1252"],
+        "shift_jis" => &["shift_jis", "sjis", "Shift_JIS", "SHIFT_JIS", "ms_kanji", "x-sjis", "windows-31j", "csshiftjis", "shift-jis"],
+        _ => &[],
+    }
+}
+
+fn alias_of(cfg: &str, k: usize) -> String {
+    let a = aliases(cfg);
+    if a.is_empty() { cfg.to_string() } else { a[k % a.len()].to_string() }
+}
+
 /// kinds of input: which bytes are on disk
 const KINDS: &[&str] = &[
     "u16le-bom", "u16be-bom", "u16le", "u16be", "u8-bom", "u8", "latin1", "sjis", "u16le-bom2", "u8-bom2", "u16le-odd", "u16be-bom-odd", "tiny", "tiny", "sjis-all",
@@ -135,7 +202,7 @@ fn gen_case(rng: &mut Rng, level: &str, big: bool) -> String {
         }
     };
     format!(
-        "{} seed={} kind={} cfg={} malformed={} big={} frag={} ml={}",
+        "{} seed={} kind={} cfg={} malformed={} big={} frag={} ml={} alias={} nd={} bd={}",
         level,
         rng.below(1 << 30),
         kind,
@@ -143,7 +210,10 @@ fn gen_case(rng: &mut Rng, level: &str, big: bool) -> String {
         rng.chance(1, 2) as u8,
         big as u8,
         rng.pick(&["1", "2", "3", "7", "mix", "8191", "8192", "8193", "whole"]),
-        rng.chance(1, 5) as u8
+        rng.chance(1, 5) as u8,
+        if rng.chance(1, 3) { rng.below(12) } else { 0 },
+        (level == "bin" && rng.chance(1, 5)) as u8,
+        (level == "bin" && !big && rng.chance(1, 4)) as u8
     )
 }
 
@@ -333,7 +403,10 @@ fn run_lib(case: &str, drv: &mut Driver, rep: &mut Report) {
     let _ = matcher.line_terminator();
     rep.eval();
     // (a) fragmented reader
-    let Some(mut searcher) = build_searcher(label, sniff, ml) else {
+    let alias_k = f.get("alias").and_then(|v| v.parse::<usize>().ok()).unwrap_or(0);
+    let alias_label = label.map(|_| alias_of(cfg, alias_k));
+    if alias_k > 0 && label.is_some() { rep.branch("lib:label-alias"); }
+    let Some(mut searcher) = build_searcher(alias_label.as_deref(), sniff, ml) else {
         rep.notes.push(format!("label not accepted: {}", cfg));
         return;
     };
@@ -366,29 +439,32 @@ fn run_lib(case: &str, drv: &mut Driver, rep: &mut Report) {
         return;
     }
     let mut problems_spec: Vec<(String, &'static str)> = vec![];
-    // known class (multi-line strategy only): the final U+FFFD of the decoder's end-of-input flush is cut short
-    // when std's read_to_end happens to offer fewer than 4 bytes of room; which read that is depends on the
-    // capacity history of the searcher's buffer, so the three routes may differ among themselves
-    let longest = [&via_reader, &via_slice, &via_whole].iter().map(|v| v.len()).max().unwrap_or(0);
-    let full: Vec<u8> = [&via_reader, &via_slice, &via_whole].iter().find(|v| v.len() == longest).map(|v| (**v).clone()).unwrap_or_default();
-    let mut full = full;
-    if ml && !full.ends_with(&[0xEF, 0xBF, 0xBD]) {
-        // all three routes may be cut: complete the replacement character if the cut is visible
-        for (cut, add) in [(&[0xEFu8, 0xBF][..], &[0xBDu8][..]), (&[0xEFu8][..], &[0xBFu8, 0xBD][..])] {
-            if full.ends_with(cut) && std::str::from_utf8(&full).is_err() { full.extend_from_slice(add); break; }
-        }
-    }
+    // known class multiline-reader-final-replacement-truncated — mechanism test FIRST: the multi-line strategy
+    // really runs (not just requested) and the decoder in use emits its U+FFFD at END of input, i.e. the input ends
+    // in a truncated character (`c17.flush`: the machine's `finish` output is non-empty). Only then is a result
+    // that lacks the last 1-3 bytes of that final U+FFFD attributed to the class (std's read_to_end may offer the
+    // decoder fewer than 4 bytes of room; which read that is depends on the buffer's capacity history, so the
+    // three routes may differ among themselves).
+    let ml = ml && searcher.multi_line_with_matcher(&matcher);
+    let flush_mech = ml && mlabel != "" && {
+        let fl = drv.ask(&format!("c17.flush (cfg {} {}) {}", mlabel, sniff as u8, hex(&input.bytes)));
+        fl == "efbfbd"
+    };
     let mut flush_cut = false;
-    let (via_reader, via_slice, via_whole) = if ml {
+    let (via_reader, via_slice, via_whole) = if flush_mech {
+        let longest = [&via_reader, &via_slice, &via_whole].iter().map(|v| v.len()).max().unwrap_or(0);
+        let mut full: Vec<u8> = [&via_reader, &via_slice, &via_whole].iter().find(|v| v.len() == longest).map(|v| (**v).clone()).unwrap_or_default();
+        if !full.ends_with(&[0xEF, 0xBF, 0xBD]) {
+            // all three routes are cut: the complete result is the model's (its last three bytes are the flush)
+            if let Some(m) = unhex(&drv.ask(&format!("c17.spec (cfg {} {}) {}", mlabel, sniff as u8, hex(&input.bytes)))) {
+                if tail_truncated(&full, &m) { full = m; }
+            }
+        }
         let fix = |v: Vec<u8>, flag: &mut bool| if tail_truncated(&v, &full) { *flag = true; full.clone() } else { v };
         (fix(via_reader, &mut flush_cut), fix(via_slice, &mut flush_cut), fix(via_whole, &mut flush_cut))
     } else {
         (via_reader, via_slice, via_whole)
     };
-    if flush_cut {
-        rep.branch("lib:class:multiline-flush-cut");
-        problems_spec.push(("multi-line strategy: the U+FFFD that ends the transcoding is cut short (1-2 of its 3 bytes, or none, are searched)".into(), CLASS_MLFLUSH));
-    }
     // F without any model: fragmentation and strategy must not matter
     if via_reader != via_whole {
         problems_spec.push((format!("fragmented reads give {} but one read gives {}", show(&via_reader[..via_reader.len().min(120)]), show(&via_whole[..via_whole.len().min(120)])), ""));
@@ -410,13 +486,12 @@ fn run_lib(case: &str, drv: &mut Driver, rep: &mut Report) {
         let m_reader = unhex(&drv.ask(&format!("c17.reader {} (chunks {})", cfg_sx, chunks.join(" "))));
         let m_slice = unhex(&drv.ask(&format!("c17.slice {} {}", cfg_sx, hex(&input.bytes))));
         let spec = unhex(&drv.ask(&format!("c17.spec {} {}", cfg_sx, hex(&input.bytes))));
-        let class = match drv.ask(&format!("c17.guard {} {}", cfg_sx, hex(&input.bytes))).as_str() {
-            "f13" => CLASS_F13,
-            "label" => CLASS_LABEL,
-            "second" => CLASS_SECOND,
-            _ => "",
-        };
-        if !class.is_empty() { rep.branch(&format!("lib:class:{}", class)); }
+        let guard = drv.ask(&format!("c17.guard {} {}", cfg_sx, hex(&input.bytes)));
+        let class = attribute(&guard, cfg, &input.bytes, rep);
+        if flush_cut {
+            rep.branch(&format!("class:{}:attributed", CLASS_MLFLUSH));
+            problems_spec.push(("multi-line strategy: the U+FFFD that ends the transcoding is cut short (1-2 of its 3 bytes, or none, are searched)".into(), CLASS_MLFLUSH));
+        }
         let (Some(m_reader), Some(m_slice), Some(spec)) = (m_reader, m_slice, spec) else {
             rep.violation(Violation { kind: "impl_vs_model".into(), class: "".into(), tie: "driver protocol".into(), case: case.to_string(), detail: "bad reply".into() });
             return;
@@ -465,20 +540,36 @@ fn run_bin(case: &str, ctx: &mut Ctx, drv: &mut Driver, rep: &mut Report) {
         rep.notes.push(format!("unparsable case: {}", case));
         return;
     }
-    let input = build_input(seed, kind, malformed == "1", big == "1");
+    let mut input = build_input(seed, kind, malformed == "1", big == "1");
     let (_, sniff, mlabel) = cfg_parts(cfg);
+    let flag = |k: &str| f.get(k).map_or(false, |v| v == "1");
+    // nd: --null-data, the line feeds of the text become U+0000 / NUL records.  bd: binary detection stays on (no -a);
+    // in half of these cases the text's spaces after its first third become U+0000 / NUL.
+    let (nd, mut bd) = (flag("nd"), flag("bd") && big != "1" && !flag("nd"));
+    let alias_k = f.get("alias").and_then(|v| v.parse::<usize>().ok()).unwrap_or(0);
+    if nd || (bd && seed % 4 < 2) {
+        let (from, start) = if nd { (0x0Au8, 0) } else { (0x20u8, input.bytes.len() / 3) };
+        if kind.starts_with("u16") {
+            let be = kind.starts_with("u16be");
+            let mut i = (start / 2) * 2;
+            while i + 1 < input.bytes.len() {
+                let (hi, lo) = if be { (input.bytes[i], input.bytes[i + 1]) } else { (input.bytes[i + 1], input.bytes[i]) };
+                if hi == 0 && lo == from { input.bytes[i] = 0; input.bytes[i + 1] = 0; }
+                i += 2;
+            }
+        } else {
+            for b in input.bytes[start..].iter_mut() { if *b == from { *b = 0; } }
+        }
+    }
     let reference: Vec<u8> = match unhex(&drv.ask(&format!("c17.spec (cfg {} {}) {}", mlabel, sniff as u8, hex(&input.bytes)))) {
         Some(s) => s,
         None => return,
     };
-    let class = {
-        match drv.ask(&format!("c17.guard (cfg {} {}) {}", mlabel, sniff as u8, hex(&input.bytes))).as_str() {
-            "f13" => CLASS_F13,
-            "label" => CLASS_LABEL,
-            "second" => CLASS_SECOND,
-            _ => "",
-        }
-    };
+    // binary detection is compared only where transcoding happens: on raw bytes it is the strategy-dependent heuristic of C02/C14
+    bd = bd && reference != input.bytes;
+    let guard = drv.ask(&format!("c17.guard (cfg {} {}) {}", mlabel, sniff as u8, hex(&input.bytes)));
+    let class = attribute(&guard, cfg, &input.bytes, rep);
+    let flush = drv.ask(&format!("c17.flush (cfg {} {}) {}", mlabel, sniff as u8, hex(&input.bytes)));
     rep.eval();
     ctx.counter += 1;
     let dir = fresh_dir(&ctx.scratch, &format!("b{}", ctx.counter));
@@ -491,8 +582,11 @@ fn run_bin(case: &str, ctx: &mut Ctx, drv: &mut Driver, rep: &mut Report) {
     let pat = *rng.pick(&pats);
     rep.branch(&format!("bin:kind:{}", kind));
     rep.branch(&format!("bin:cfg:{}", cfg));
-    if !class.is_empty() { rep.branch(&format!("bin:class:{}", class)); }
-    let base = ["--color", "never", "--no-config", "-n", "--no-filename", "-a"];
+    let mut base = vec!["--color", "never", "--no-config", "-n", "--no-filename"];
+    if !bd { base.push("-a"); } else { rep.branch(if reference.contains(&0) { "bin:binary-detection:nul-in-transcoding" } else { "bin:binary-detection:text" }); }
+    if nd { base.push("--null-data"); rep.branch("bin:null-data"); }
+    let elabel = alias_of(cfg, alias_k);
+    if elabel != *cfg { rep.branch("bin:label-alias"); }
     // every second case: multi-line search with a pattern that may match the line terminator
     let ml = f.get("ml").map_or(false, |v| v == "1") || seed % 2 == 1;
     let mlpat = format!("{}[\\s\\S]?", pat);
@@ -500,18 +594,29 @@ fn run_bin(case: &str, ctx: &mut Ctx, drv: &mut Driver, rep: &mut Report) {
     let pat: &str = if ml { &mlpat } else { pat };
     if ml { rep.branch("bin:multi-line"); }
     let mut rcmd = Command::new(&ctx.rg);
-    rcmd.current_dir(dir.join("ref")).args(base).args(["-E", "none", "--no-mmap", "-j1"]).args(&ml_args).arg(pat).arg("f.txt");
+    // (with binary detection on, the reference is searched as a whole, like the transcoded text is: where a reader that
+    // delivers the first three bytes on their own looks for the NUL is the strategy-dependent heuristic of C02/C14)
+    rcmd.current_dir(dir.join("ref")).args(&base).args(["-E", "none", if bd { "--mmap" } else { "--no-mmap" }, "-j1"]).args(&ml_args).arg(pat).arg("f.txt");
     let reference_out = run_cmd(&mut rcmd, None);
     for mmap in ["--mmap", "--no-mmap", "stdin"] {
         let mut cmd = Command::new(&ctx.rg);
-        cmd.current_dir(dir.join("enc")).args(base).arg("-j1");
+        cmd.current_dir(dir.join("enc")).args(&base).arg("-j1");
         if mmap != "stdin" { cmd.arg(mmap); }
-        if cfg != "auto" { cmd.args(["-E", cfg]); }
+        if cfg != "auto" { cmd.args(["-E", &elabel]); }
         cmd.args(&ml_args).arg(pat);
         if mmap != "stdin" { cmd.arg("f.txt"); } else { cmd.arg("-"); }
         let out = if mmap == "stdin" { run_cmd(&mut cmd, Some(&input.bytes)) } else { run_cmd(&mut cmd, None) };
         if out.stdout != reference_out.stdout || out.exit() != reference_out.exit() {
-            let class = if class.is_empty() && ml && reference.ends_with(&[0xEF, 0xBF, 0xBD]) { CLASS_MLFLUSH } else { class };
+            // multiline-reader-final-replacement-truncated — mechanism test: -U with a pattern that may match the
+            // terminator (so the multi-line strategy runs), the decoder emits U+FFFD at end of input (the input ends
+            // in a truncated character), and the two outputs differ only in what follows the last line terminator
+            let la: Vec<&[u8]> = out.stdout.split(|c| *c == b'\n').filter(|l| !l.is_empty()).collect();
+            let lb: Vec<&[u8]> = reference_out.stdout.split(|c| *c == b'\n').filter(|l| !l.is_empty()).collect();
+            let (ka, kb) = (la.len().saturating_sub(1), lb.len().saturating_sub(1));
+            let k = ka.min(kb);
+            let same_but_tail = la[..k] == lb[..k] && la.len().abs_diff(lb.len()) <= 1;
+            let mech = class.is_empty() && ml && flush != "-" && flush != "bad-op" && reference.ends_with(&[0xEF, 0xBF, 0xBD]) && same_but_tail;
+            let class = if mech { rep.branch(&format!("class:{}:attributed", CLASS_MLFLUSH)); CLASS_MLFLUSH } else { class };
             rep.violation(Violation {
                 kind: "impl_vs_spec".into(), class: class.into(),
                 tie: "rg on an encoded file vs rg -E none on its UTF-8 transcoding".into(),
@@ -527,8 +632,94 @@ fn run_bin(case: &str, ctx: &mut Ctx, drv: &mut Driver, rep: &mut Report) {
     remove_tree(&dir);
 }
 
+/// Other encodings: no Lean machine; the searcher's three routes and the binary's three routes against the table's UTF-8.
+fn run_other(case: &str, ctx: &mut Ctx, rep: &mut Report) {
+    let f = fields(case);
+    let (Some(seed), Some(enc), Some(frag)) = (f.get("seed").and_then(|v| v.parse::<u64>().ok()), f.get("enc"), f.get("frag")) else {
+        rep.notes.push(format!("unparsable case: {}", case));
+        return;
+    };
+    let Some((label, table)) = OTHER.iter().find(|(l, _)| l == enc) else {
+        rep.notes.push(format!("unparsable case: {}", case));
+        return;
+    };
+    let mut rng = Rng::new(seed ^ 0x07E2);
+    let big = f.get("big").map_or(false, |v| v == "1");
+    let (mut bytes, mut exp) = (vec![], vec![]);
+    for _ in 0..(if big { rng.range(300, 1500) } else { 1 }) {
+        for _ in 0..rng.range(1, 30) {
+            match rng.below(6) {
+                0 => { bytes.extend(b"needle "); exp.extend(b"needle "); }
+                1 => { bytes.push(b'\n'); exp.push(b'\n'); }
+                2 => { bytes.push(b'x'); exp.push(b'x'); }
+                _ => { let (s, b) = rng.pick(table); bytes.extend(*b); exp.extend(s.as_bytes()); }
+            }
+        }
+        bytes.push(b'\n');
+        exp.push(b'\n');
+    }
+    rep.eval();
+    rep.branch(&format!("other:{}", label));
+    let matcher = RegexMatcher::new_line_matcher("needle").unwrap();
+    let Some(mut searcher) = build_searcher(Some(label), true, false) else {
+        rep.violation(Violation { kind: "impl_vs_spec".into(), class: "".into(), tie: "a label of the Encoding Standard is accepted".into(), case: case.to_string(), detail: format!("label not accepted: {}", label) });
+        return;
+    };
+    let mut problems: Vec<String> = vec![];
+    let mut rdr = Fragmented { data: &bytes, pos: 0, sizes: frag_sizes(frag, seed), next: 0, delivered: vec![] };
+    let mut s1 = Collect(vec![]);
+    let r1 = searcher.search_reader(&matcher, &mut rdr, &mut s1);
+    if rdr.delivered.len() > 3 { rep.nontrivial(case); }
+    let mut s2 = Collect(vec![]);
+    let r2 = searcher.search_slice(&matcher, &bytes, &mut s2);
+    if r1.is_err() || r2.is_err() { problems.push(format!("search error: {:?} / {:?}", r1.err(), r2.err())); }
+    for (how, got) in [("fragmented reader", &s1.0), ("slice", &s2.0)] {
+        if *got != exp {
+            let at = got.iter().zip(exp.iter()).position(|(x, y)| x != y).unwrap_or(got.len().min(exp.len()));
+            problems.push(format!("{}: searched bytes differ from the text's UTF-8 at byte {}: {} / {}", how, at,
+                show(&got[at.saturating_sub(8)..got.len().min(at + 24)]), show(&exp[at.saturating_sub(8)..exp.len().min(at + 24)])));
+        }
+    }
+    if seed % 3 == 0 {
+        ctx.counter += 1;
+        let dir = fresh_dir(&ctx.scratch, &format!("o{}", ctx.counter));
+        std::fs::create_dir_all(dir.join("enc")).unwrap();
+        std::fs::create_dir_all(dir.join("ref")).unwrap();
+        std::fs::write(dir.join("enc/f.txt"), &bytes).unwrap();
+        std::fs::write(dir.join("ref/f.txt"), &exp).unwrap();
+        let first = table[0].0;
+        let pat = *rng.pick(&["needle", ".", "^", first]);
+        let base = ["--color", "never", "--no-config", "-n", "--no-filename", "-j1"];
+        let mut rcmd = Command::new(&ctx.rg);
+        rcmd.current_dir(dir.join("ref")).args(base).args(["-E", "none", "--no-mmap"]).arg(pat).arg("f.txt");
+        let reference_out = run_cmd(&mut rcmd, None);
+        for mmap in ["--mmap", "--no-mmap", "stdin"] {
+            let mut cmd = Command::new(&ctx.rg);
+            cmd.current_dir(dir.join("enc")).args(base).args(["-E", label]);
+            if mmap != "stdin" { cmd.arg(mmap); }
+            cmd.arg(pat).arg(if mmap != "stdin" { "f.txt" } else { "-" });
+            let out = if mmap == "stdin" { run_cmd(&mut cmd, Some(&bytes)) } else { run_cmd(&mut cmd, None) };
+            if out.stdout != reference_out.stdout || out.exit() != reference_out.exit() {
+                problems.push(format!("rg -E {} {} pattern {}: prints {} (exit {}), on the UTF-8 text {} (exit {})", label, mmap, pat,
+                    show(&out.stdout[..out.stdout.len().min(160)]), out.exit(), show(&reference_out.stdout[..reference_out.stdout.len().min(160)]), reference_out.exit()));
+                break;
+            }
+        }
+        rep.branch("other:bin");
+        remove_tree(&dir);
+    }
+    for p in problems.into_iter().take(2) {
+        rep.violation(Violation {
+            kind: "impl_vs_spec".into(), class: "".into(),
+            tie: "an input searched with an explicit --encoding label gives the results of its UTF-8 transcoding (other encodings: differential, no Lean machine)".into(),
+            case: case.to_string(), detail: p,
+        });
+    }
+}
+
 fn run_case(case: &str, ctx: &mut Ctx, drv: &mut Driver, rep: &mut Report) {
     match case.split(' ').next() {
+        Some("other") => run_other(case, ctx, rep),
         Some("lib") => run_lib(case, drv, rep),
         Some("bin") => run_bin(case, ctx, drv, rep),
         _ => rep.notes.push(format!("unparsable case: {}", case)),
@@ -543,7 +734,7 @@ fn main() {
         "Inputs: tiny inputs (0-4 bytes: only a mark, truncated marks, a mark and one byte); UTF-16LE/BE with and without mark, with a second mark, with an odd byte count; UTF-8 with/without mark; \
          windows-1252 bytes; shift_jis text (valid and with unpaired leads / invalid trails; once every lead/trail pair); texts mix ASCII, BMP, astral characters, U+FEFF, and (malformed stream, 50%) lone \
          and reversed surrogates / invalid UTF-8 (stray and missing continuations, overlong, encoded surrogates, > U+10FFFF). \
-         Configurations auto / none / utf-8 / utf-16le / utf-16be / latin1 / shift_jis, matching or not. lib: fragment sizes 1, 2, 3, 7, \
+         Configurations auto / none / utf-8 / utf-16le / utf-16be / latin1 / shift_jis, matching or not, the label spelled as any of its Encoding Standard aliases in any letter case (1/3). bin also: --null-data with the text's line feeds turned into U+0000 (1/5), binary detection left on (no -a; half with U+0000 in the text; reference searched as a whole). other: 15 further encodings (gb18030, gbk, big5, euc-jp, euc-kr, koi8-r/u, windows-1250/1251/874, iso-8859-2/15, macintosh, ibm866, x-user-defined) on valid text from hand-written tables, differential only. lib: fragment sizes 1, 2, 3, 7, \
          mixed, 8191, 8192, 8193, whole; line-by-line and multi-line (matcher that may match the terminator, so the multi-line strategy really runs); small and 10-100 KB inputs. bin: --mmap, --no-mmap and stdin, 7 patterns, half of them as multi-line searches (-U, pattern may match the terminator). \
          Non-trivial: lib: more than 3 fragments of a UTF-16 or malformed input; bin: the reference run prints something.",
     );
@@ -559,7 +750,10 @@ fn main() {
         let n = args.cases.unwrap_or(if args.thorough { 30000 } else { 2400 });
         for i in 0..n {
             let big = i % 25 == 24;
-            let case = if i % 6 == 5 { gen_case(&mut rng, "bin", big && i % 50 == 49) } else { gen_case(&mut rng, "lib", big) };
+            let case = if i % 24 == 11 {
+                format!("other seed={} enc={} frag={} big={}", rng.below(1 << 30), rng.pick(OTHER).0,
+                    rng.pick(&["1", "2", "3", "7", "mix", "8191", "8192", "8193", "whole"]), (i % 240 == 11) as u8)
+            } else if i % 6 == 5 { gen_case(&mut rng, "bin", big && i % 50 == 49) } else { gen_case(&mut rng, "lib", big) };
             if i < 6 { rep.sample(case.clone()); }
             run_case(&case, &mut ctx, &mut drv, &mut rep);
         }
